@@ -1,12 +1,12 @@
 #!/bin/bash
 # try_seeded.sh <Prop> : for each /tmp/m/<Prop>/out/<n>, apply to /repo, run ./check <Prop>, revert; print one line per change
-P=$1
+D=$1; P=${1:0:3}
 cd /verif
-for d in /tmp/m/$P/out/*/; do
+for d in /tmp/m/$D/out/*/; do
   n=$(basename $d)
   if ! git -C /repo apply $d/patch.diff 2>/dev/null; then echo "$P-$n APPLY-FAILED"; continue; fi
   out=$(timeout 1500 ./check $P 2>&1 | grep -E "^(VIOLATION|OK property|INFRA)" | head -3 | cut -c1-330)
   git -C /repo checkout -- . ; git -C /repo clean -fdq
-  echo "== $P-$n :: $out"
+  echo "== $D-$n :: $out"
 done
 out=$(./check $P 2>&1 | grep -E "^(VIOLATION|OK property|INFRA)" | head -2 | cut -c1-200); echo "== $P clean :: $out"
